@@ -43,6 +43,7 @@ from __future__ import annotations
 
 import argparse
 import keyword
+import math
 import os
 import os.path
 import sys
@@ -384,7 +385,8 @@ class AliasPrinter(NodeVisitor[str]):
         return f"{o.left.accept(self)} {o.op} {o.right.accept(self)}"
 
     def visit_unary_expr(self, o: UnaryExpr, /) -> str:
-        return f"{o.op}{o.expr.accept(self)}"
+        op = "not " if o.op == "not" else o.op
+        return f"{op}{o.expr.accept(self)}"
 
     def visit_slice_expr(self, o: SliceExpr, /) -> str:
         blocks = [
@@ -1450,10 +1452,15 @@ class ASTStubGenerator(BaseStubGenerator, mypy.traverser.TraverserVisitor):
             if rvalue.name in ("None", "True", "False"):
                 return rvalue.name, True
         elif isinstance(rvalue, (IntExpr, FloatExpr)):
-            return f"{rvalue.value}", True
+            # 1e999 is inf, which has no literal form.
+            if isinstance(rvalue, IntExpr) or math.isfinite(rvalue.value):
+                return f"{rvalue.value}", True
         elif isinstance(rvalue, UnaryExpr):
-            if isinstance(rvalue.expr, (IntExpr, FloatExpr)):
-                return f"{rvalue.op}{rvalue.expr.value}", True
+            if isinstance(rvalue.expr, IntExpr) or (
+                isinstance(rvalue.expr, FloatExpr) and math.isfinite(rvalue.expr.value)
+            ):
+                op = "not " if rvalue.op == "not" else rvalue.op
+                return f"{op}{rvalue.expr.value}", True
         elif isinstance(rvalue, StrExpr):
             return repr(rvalue.value), True
         elif isinstance(rvalue, BytesExpr):
